@@ -10,6 +10,7 @@ import (
 func init() {
 	VerifHarnesses["H_C17_escape_free"] = H_C17_escape_free
 	VerifHarnesses["H_C17_escape_window"] = H_C17_escape_window
+	VerifHarnesses["H_C17_escape_utf8"] = H_C17_escape_utf8
 }
 
 func c17Check(t *verifrt.T, s []byte, flags int) {
@@ -63,5 +64,20 @@ func H_C17_escape_window(t *verifrt.T) {
 		t.Assume(p2 > p1)
 		s[p2] = t.Byte("b2")
 	}
+	c17Check(t, s, flags)
+}
+
+// multi-byte UTF-8 family: PRE plain bytes, then a lead byte >= 0xC0 followed by
+// three fully symbolic bytes (every 2-, 3- and 4-byte sequence, valid or not).
+func H_C17_escape_utf8(t *verifrt.T) {
+	flags := t.Choice("flags", 4)
+	pre := t.Choice("pre", t.Param("PRE")+1)
+	s := make([]byte, 0, pre+4)
+	for i := 0; i < pre; i++ {
+		s = append(s, 'a')
+	}
+	lead := t.Byte("lead")
+	t.Assume(lead >= 0xc0)
+	s = append(s, lead, t.Byte("c1"), t.Byte("c2"), t.Byte("c3"))
 	c17Check(t, s, flags)
 }
